@@ -618,6 +618,18 @@ pub fn size_ladders(tier: Tier) -> Vec<(String, String)> {
         s.push_str(&format!("f = || ({}).sum()\nprint f()\n", uses.join(" , ").replace(" , ", ", ")));
         let _ = s;
     }
+    // element counts around the signed 8 bit index limit of unpacking patterns
+    for n in range(tier.pick(124, 118), tier.pick(131, 140)) {
+        let names: Vec<String> = (0..n).map(|i| format!("a{i}")).collect();
+        let vals: Vec<String> = (0..n).map(|i| format!("{i}")).collect();
+        let probe = format!("(a0, a{}, a{})", n / 2, n - 1);
+        v.push((format!("nested-args-{n}"), format!("f = |({})| {probe}\nprint f(({}))\n", names.join(", "), vals.join(", "))));
+        v.push((format!("nested-args-ellipsis-{n}"), format!("f = |(first..., {})| {probe}\nprint f((99, 98, {}))\n", names.join(", "), vals.join(", "))));
+        v.push((format!("nested-args-trailing-ellipsis-{n}"), format!("f = |({}, rest...)| {probe}\nprint f(({}, 98, 99))\n", names.join(", "), vals.join(", "))));
+        v.push((format!("match-tuple-{n}"), format!("x = match ({})\n  ({}) then {probe}\n  else 'no match'\nprint x\n", vals.join(", "), names.join(", "))));
+        v.push((format!("match-tuple-ellipsis-{n}"), format!("x = match (99, 98, {})\n  (..., {}) then {probe}\n  else 'no match'\nprint x\n", vals.join(", "), names.join(", "))));
+        v.push((format!("for-nested-args-{n}"), format!("for ({}) in (({}),)\n  print {probe}\n", names.join(", "), vals.join(", "))));
+    }
     // nested temporaries: deep nesting of calls
     for n in [60usize, 120, 200, 250, 254, 255, 256, 300] {
         let mut s = String::from("id = |x| x\nprint ");
@@ -678,6 +690,7 @@ fn expected_ladder_output(name: &str) -> Option<String> {
         "if-body" | "if-else-body" | "fn-body" | "try-body" | "match-arm" | "switch-arm" => format!("{k}\n"),
         "while-body" | "for-body" | "loop-body" | "loop-tail-break" => format!("{}\n", 2 * k),
         "and-rhs" => format!("({k}, true)\n").replace(&format!("({k}"), "(0"),
+        "nested-args" | "nested-args-ellipsis" | "nested-args-trailing-ellipsis" | "match-tuple" | "match-tuple-ellipsis" | "for-nested-args" => format!("(0, {}, {})\n", k / 2, k - 1),
         _ => return None,
     })
 }
